@@ -14,7 +14,10 @@ conclusion on every observation of the implementation:
   * balance(a) = number of tokens the plain map gives to a; token_uri exists iff owned;
   * enumerable: total_supply = number of existing tokens, the global list and each owner's
     list contain exactly those tokens once, and one index past the end fails;
-  * a rejected call changes nothing.
+  * a rejected call changes nothing;
+  * idle time changes nothing (`nft.idle.changed`: after ledger gaps of 1, 31 and 100 days without any
+    call every owner, balance, enumeration is still what the plain map says) and ids issued after a
+    gap are still above every id issued before (`nft.idle.id_reused`).
 Explicit-id mints are judged under the fresh-id hypothesis of the property: when a mint hits
 an id that currently has an owner the monitor stops judging that sequence.
 -/
@@ -29,6 +32,7 @@ structure Mon where
   bal : List Nat
   live : Nat                             -- number of existing tokens
   disabled : Bool
+  gap : Bool                             -- an idle gap of at least a day has passed
   prev : Option Obs
 
 def ghostOwner (m : Mon) (id : Nat) : Option Nat :=
@@ -81,7 +85,7 @@ def check (m : Mon) (opl obs : String) : Mon × Option String :=
         match o.ret with
         | none => (m, some "site=nft.mint.ret a sequential mint returned no id")
         | some id =>
-          if id < m.next then (m, some s!"site=nft.mint.reused sequential mint issued {id}, already issued before (counter was {m.next})")
+          if id < m.next then (m, some s!"site={if m.gap then "nft.idle.id_reused" else "nft.mint.reused"} sequential mint issued {id}, already issued before (counter was {m.next})")
           else if (ghostOwner m id).isSome then
             if m.flavour = "exp" then ({ m with disabled := true }, none)   -- collides with an explicit id: hypothesis
             else (m, some s!"site=nft.mint.reused sequential mint issued the owned id {id}")
@@ -96,7 +100,7 @@ def check (m : Mon) (opl obs : String) : Mon × Option String :=
           if last + 1 < ol.n ∨ ol.n = 0 then (m, some s!"site=nft.batch.range batch of {ol.n} ends at {last}")
           else
             let first := last + 1 - ol.n
-            if first < m.next then (m, some s!"site=nft.batch.reused batch [{first},{last}] overlaps ids issued before (counter was {m.next})")
+            if first < m.next then (m, some s!"site={if m.gap then "nft.idle.id_reused" else "nft.batch.reused"} batch [{first},{last}] overlaps ids issued before (counter was {m.next})")
             else ({ m with batches := (first, last, a 0) :: m.batches, next := last + 1,
                            bal := addBal m.bal (a 0) ol.n, live := m.live + ol.n }, none)
       | "transfer" | "transfer_from" =>
@@ -109,6 +113,7 @@ def check (m : Mon) (opl obs : String) : Mon × Option String :=
         if ghostOwner m ol.id ≠ some f then
           (m, some s!"site=nft.burn.not-owner token {ol.id} burned from {f} but its owner is {showOpt (ghostOwner m ol.id)}")
         else ({ setOwner m ol.id none with bal := addBal m.bal f (-1), live := m.live - 1 }, none)
+      | "advance" => ({ m with gap := m.gap || decide (ol.n ≥ 17280) }, none)
       | _ => (m, none)
     let m2 := { m1 with prev := some o }
     if m1.disabled then (m2, none) else
@@ -136,6 +141,10 @@ def check (m : Mon) (opl obs : String) : Mon × Option String :=
                 checkList s!"owner{acc}" (o.ol.getD acc []) (m1.bal.getD acc 0)
                   (ol.kind ≠ "advance" ∧ ol.a.contains acc) (fun t => ghostOwner m1 t = some acc))
         else none
+      -- an idle gap (no call at all) must leave every answer as the plain map has it
+      let fail := if ol.kind = "advance" then
+          fail.map (fun f => s!"site=nft.idle.changed after {ol.n} idle ledgers the contract answers differently: {f.replace "site=" "was-site="}")
+        else fail
       (m2, fail)
   | _, _ => (m, some s!"site=nft.parse unparsable line {obs}")
 
@@ -146,7 +155,7 @@ def machine : Machine where
   μ := Mon
   minit := fun label =>
     { flavour := (kv? (words label) "flavour").getD "seq", batches := [], over := [], next := 0,
-      bal := List.replicate N 0, live := 0, disabled := false, prev := none }
+      bal := List.replicate N 0, live := 0, disabled := false, gap := false, prev := none }
   mon := check
 
 end OZ.Drv.C10
